@@ -274,7 +274,7 @@ def metaparser_structure(rec, quick):
 
 def run_shard(rec):
     quick = rec.tier == 'quick'
-    rec.deadline = time.time() + (60 if quick else 900)
+    rec.deadline = time.time() + (300 if quick else 900)
     n = 30 if quick else 700
     for i in range(n):
         if rec.out_of_time():
